@@ -1,16 +1,13 @@
 //! Probes for external runtime monitors. Only compiled with the `verif-hooks` feature, which is
 //! off by default; nothing in the crate depends on it.
 
-use std::{cell::RefCell, time::Duration};
+use std::cell::RefCell;
 
 /// Decision points of the connection run loop.
 #[derive(Clone, Copy, Debug, PartialEq, Eq)]
 pub enum LoopEvent {
     /// A loop iteration starts.
-    IterStart {
-        /// Whether the loop is in the idling state.
-        idling: bool,
-    },
+    IterStart,
     /// While idling, the server's reply won the select.
     SelectReply,
     /// While idling, the command channel won the select.
@@ -47,9 +44,4 @@ pub(crate) fn emit(event: LoopEvent) {
             }
         }
     });
-}
-
-/// The delay after which the loop starts idling again when no further command arrives.
-pub fn next_command_idle_timeout() -> Duration {
-    crate::client::verif_next_command_idle_timeout()
 }
